@@ -61,7 +61,7 @@ def build_harness(profile="debug", features=None):
     tdir = "target"
     if features is not None:
         # one shared directory for all non-default variants keeps disk use bounded; the two extremes get their own cache
-        tdir = "target-nostd" if not features else ("target-std" if features == ["std"] else "target-variants")
+        tdir = "target-nostd" if not features else ("target-std" if features == ["std"] else "target-" + "_".join(features))
         cmd += ["--target-dir", tdir]
     rc, out = run(cmd, cwd=HARNESS, env=env, timeout=1800)
     if rc != 0:
